@@ -274,7 +274,9 @@ class DataCase(object):
         if not getattr(self, 'cov_values', None):
             return []
         return [(n, self.cov_values[k][j])
-                for j, n in enumerate(self.cov_obs_names)]
+                for j, n in enumerate(self.cov_obs_names)] + \
+            [(n, self.cov_values[k][j] + 7.0) for j, n in enumerate(
+                getattr(self, 'cov_decoy_names', []))]
 
     # ------------------------------------------------------- reference
     def protocol(self, k):
@@ -390,6 +392,17 @@ def posterior_case(ctx, rng, idx):
         feats['population_code'] = [GP.leaf_code(l) for l in leaves]
     shuffle = 'full' if idx % 11 == 0 else 'interleave'
     feats['shuffle'] = shuffle
+    unique_cov = leaves is not None and sum(
+        1 for l in leaves if l.cov) <= 1
+    # covariates either carry the data's names, or (single covariate
+    # sub-model only) keep their defaults and are mapped explicitly
+    rename = not (unique_cov and rng.random() < 0.5)
+    case.cov_decoy_names = []
+    if leaves is not None and h.n_cov and not rename and rng.random() < 0.5:
+        # unrelated rows of an observable that happens to carry the model's
+        # default covariate name: the explicit mapping decides
+        case.cov_decoy_names = ['Cov. %d' % (j + 1) for j in range(h.n_cov)]
+    feats['decoy_named_like_default_covariate'] = bool(case.cov_decoy_names)
     df = case.frame(rng, shuffle=shuffle)
     ctx.case(('sbml' if case.sbml else 'toy',
               '+'.join(feats.get('population_code', ['-'])),
@@ -402,22 +415,15 @@ def posterior_case(ctx, rng, idx):
     c, kw = _setup_controller(case, df, ctx, feats)
     try:
         pm_set_first = bool(rng.integers(2))
-        unique_cov = leaves is not None and sum(
-            1 for l in leaves if l.cov) <= 1
-        # covariates either carry the data's names, or (single covariate
-        # sub-model only) keep their defaults and are mapped explicitly
-        rename = not (unique_cov and rng.random() < 0.5)
         if leaves is not None:
             pm = _pop_model(case, leaves, rename)
             if h.n_cov and not rename:
                 kw['covariate_dict'] = dict(zip(
                     pm.get_covariate_names(), case.cov_obs_names))
         feats['covariates_renamed'] = rename
-        if leaves is not None and h.n_cov and not rename:
-            # an explicit covariate mapping can only be given with the
-            # population model already set (documented: otherwise the data
-            # is reset with a warning)
-            pm_set_first = True
+        # (an explicit covariate mapping is given with set_data, before or
+        # after the population model is set)
+        feats['population_model_set_first'] = pm_set_first
         if leaves is not None and pm_set_first:
             c.set_population_model(pm)
         c.set_data(df, **kw)
@@ -508,6 +514,8 @@ def posterior_case(ctx, rng, idx):
                         feats)
         _metamorphic(ctx, rng, case, post(x), x, feats, leaves, fixed, mu,
                      individual=key)
+        _history(ctx, rng, case, c, df, kw, post(x), x, feats, None,
+                 individual=arg)
         return
     # ---------------------------------------------------- hierarchical
     _patch()
@@ -552,6 +560,70 @@ def posterior_case(ctx, rng, idx):
     _check_regimens(ctx, case, created, ids, feats)
     _metamorphic(ctx, rng, case, post(x), x, feats, leaves, fixed, mu,
                  rename=rename, cov_dict=kw.get('covariate_dict'))
+    _history(ctx, rng, case, c, df, kw, post(x), x, feats, pm)
+
+
+def _history(ctx, rng, case, c, df, kw, value, x, feats, pm,
+             individual=None):
+    """things that happen around a configured controller and must not
+    change the posterior it builds: a set_data call that is refused, a
+    sibling controller configured with the same population model object,
+    edits of the regimens the controller reported"""
+    kinds = ['failed_set_data', 'edit_reported_regimens']
+    if pm is not None:
+        kinds.append('sibling_controller')
+    kind = kinds[int(rng.integers(len(kinds)))]
+    names_before = list(c.get_parameter_names())
+    try:
+        if kind == 'failed_set_data':
+            bad = df.copy()
+            vk = case.key_names['value']
+            rows = np.where(bad[vk].notnull())[0]
+            if not len(rows):
+                return
+            bad[vk] = bad[vk].astype(object)
+            bad.iloc[int(rows[int(rng.integers(len(rows)))]),
+                     list(bad.columns).index(vk)] = '<LOQ'
+            try:
+                c.set_data(bad, **kw)
+                return          # accepted: nothing to compare
+            except Exception:   # noqa
+                pass
+        elif kind == 'edit_reported_regimens':
+            regs = c.get_dosing_regimens()
+            if not regs:
+                return
+            for r in regs.values():
+                if r is not None:
+                    r.schedule(100.0, 0.73210987, 0.1)
+        else:
+            idk = case.key_names['id']
+            first = df[idk].iloc[0]
+            sub = df[df[idk] == first]
+            c2, kw2 = _setup_controller(case, sub, ctx, feats)
+            c2.set_population_model(pm)
+            c2.set_data(sub, **kw)
+    except Exception as e:      # noqa
+        ctx.violation_exc('history_step_raises', e,
+                          {'step': kind, 'case': feats}, feats)
+        return
+    ctx.count('controller_histories')
+    try:
+        names_after = list(c.get_parameter_names())
+        post2 = c.get_log_posterior(individual=individual) \
+            if pm is None else c.get_log_posterior()
+        v2 = post2(x)
+    except Exception as e:      # noqa
+        ctx.violation_exc('posterior_after_history_raises', e,
+                          {'step': kind, 'case': feats}, feats)
+        return
+    if names_after != names_before or not ctx.close(
+            v2, value, rtol=1e-9, scale=abs(value) + 10):
+        ctx.violation('posterior_unaffected_by_history',
+                      'changed_by:' + kind,
+                      {'before': value, 'after': v2,
+                       'names before': names_before,
+                       'names after': names_after, 'case': feats}, feats)
 
 
 def _pop_model(case, leaves, rename):
